@@ -829,6 +829,67 @@ func union(sets ...EdgeSet) EdgeSet {
 // edgesWhere returns the CFG edges of fn taken exactly when predicate m
 // holds (holds=true) or fails (holds=false).
 func edgesWhere(fn *ssa.Function, m CondM, holds bool) EdgeSet {
+	out := edgesWhereDirect(fn, m, holds)
+	// a branch on a boolean that is a φ of constants and of values of the predicate (the shape
+	// `ok := a && b` / `flag := cond; …; if flag` takes): its true side implies the predicate too
+	// when every way of making the φ true passes an edge found above or is the predicate itself.
+	isGuard := func(v ssa.Value) bool {
+		match, pos := m(v)
+		return match && pos == holds
+	}
+	for _, b := range fn.Blocks {
+		if len(b.Instrs) == 0 {
+			continue
+		}
+		ifi, ok := b.Instrs[len(b.Instrs)-1].(*ssa.If)
+		if !ok {
+			continue
+		}
+		inner, pos := unNot(ifi.Cond)
+		ph, isPhi := inner.(*ssa.Phi)
+		if !isPhi {
+			continue
+		}
+		if match, _ := m(ifi.Cond); match {
+			continue
+		}
+		if ok2, _ := boolImplies(fn, ph, b, isGuard, out); ok2 && phiHasNonConst(ph) {
+			if pos {
+				out[Edge{b, 0}] = true
+			} else {
+				out[Edge{b, 1}] = true
+			}
+		}
+	}
+	return out
+}
+
+// phiHasNonConst: the φ is not a pure constant flag (those are handled by flagTrueEdges).
+func phiHasNonConst(ph *ssa.Phi) bool {
+	seen := map[*ssa.Phi]bool{}
+	var walk func(p *ssa.Phi) bool
+	walk = func(p *ssa.Phi) bool {
+		if seen[p] {
+			return false
+		}
+		seen[p] = true
+		for _, e := range p.Edges {
+			switch x := e.(type) {
+			case *ssa.Const:
+			case *ssa.Phi:
+				if walk(x) {
+					return true
+				}
+			default:
+				return true
+			}
+		}
+		return false
+	}
+	return walk(ph)
+}
+
+func edgesWhereDirect(fn *ssa.Function, m CondM, holds bool) EdgeSet {
 	out := EdgeSet{}
 	for _, b := range fn.Blocks {
 		if len(b.Instrs) == 0 {
@@ -1404,4 +1465,103 @@ func (p *Prog) onlyTrueStored(mt *types.Map) bool {
 		})
 	}
 	return ok && n > 0
+}
+
+// ---------------------------------------------------------------- path-sensitive evaluation
+
+// resolveOnPath resolves v along a block path: a φ is replaced by its incoming value for
+// the predecessor that precedes its block on the path (innermost occurrence), repeatedly.
+func resolveOnPath(path []*ssa.BasicBlock, v ssa.Value) ssa.Value {
+	v = strip(v)
+	for depth := 0; depth < 32; depth++ {
+		ph, ok := v.(*ssa.Phi)
+		if !ok {
+			return v
+		}
+		at := -1
+		for i := len(path) - 1; i >= 1; i-- {
+			if path[i] == ph.Block() {
+				at = i
+				break
+			}
+		}
+		if at < 1 {
+			return v
+		}
+		sel := -1
+		for i, pr := range ph.Block().Preds {
+			if pr == path[at-1] {
+				sel = i
+			}
+		}
+		if sel < 0 {
+			return v
+		}
+		v = strip(ph.Edges[sel])
+		path = path[:at]
+	}
+	return v
+}
+
+// boolOnPath evaluates a boolean along a path: constants, φ (resolved), negation.
+// known=false when the value is not determined by the path.
+func boolOnPath(path []*ssa.BasicBlock, v ssa.Value) (val, known bool) {
+	v = resolveOnPath(path, v)
+	if c, ok := v.(*ssa.Const); ok && c.Value != nil && c.Value.Kind() == constant.Bool {
+		return constant.BoolVal(c.Value), true
+	}
+	if u, ok := v.(*ssa.UnOp); ok && u.Op == token.NOT {
+		x, k := boolOnPath(path, u.X)
+		return !x, k
+	}
+	return false, false
+}
+
+// eachPathToReturn enumerates the acyclic block paths from an edge to the returns of fn,
+// following only the feasible side of branches whose condition is determined by the path
+// (flags). f is called with the path and the return; enumeration stops when f returns false.
+func eachPathToReturn(fn *ssa.Function, e Edge, f func(path []*ssa.BasicBlock, r *ssa.Return) bool) {
+	stop := false
+	n := 0
+	var walk func(b *ssa.BasicBlock, path []*ssa.BasicBlock, on map[*ssa.BasicBlock]bool)
+	walk = func(b *ssa.BasicBlock, path []*ssa.BasicBlock, on map[*ssa.BasicBlock]bool) {
+		if stop || n > 20000 {
+			return
+		}
+		n++
+		path = append(path, b)
+		if len(b.Instrs) > 0 {
+			switch x := b.Instrs[len(b.Instrs)-1].(type) {
+			case *ssa.Return:
+				if !f(path, x) {
+					stop = true
+				}
+				return
+			case *ssa.If:
+				if val, known := boolOnPath(path, x.Cond); known {
+					idx := 1
+					if val {
+						idx = 0
+					}
+					nb := b.Succs[idx]
+					if !on[nb] {
+						on[nb] = true
+						walk(nb, path, on)
+						delete(on, nb)
+					}
+					return
+				}
+			}
+		}
+		for _, nb := range b.Succs {
+			if on[nb] {
+				continue
+			}
+			on[nb] = true
+			walk(nb, path, on)
+			delete(on, nb)
+		}
+	}
+	start := e.B.Succs[e.S]
+	walk(start, []*ssa.BasicBlock{e.B}, map[*ssa.BasicBlock]bool{start: true})
 }
